@@ -439,6 +439,7 @@ fn check(a: &Args) -> i32 {
                 "schedulers": if thorough { "random + PCT depth 1..3" } else { "random" },
                 "distinct_schedules": distinct,
                 "history_events_checked": events.load(Ordering::Relaxed),
+                "histories_without_verdict_(search_budget)": lin::UNDECIDED.load(Ordering::Relaxed),
                 "refcount_scheduling_points_passed": points.load(Ordering::Relaxed),
                 "executions_per_hour": (n_exec as f64 / wall.max(1e-9) * 3600.0) as u64,
                 "faults_injected": {"F8_preemption": "a context switch is possible before every lock acquire/try/release and every Arc/Weak count operation; see distinct_schedules"},
